@@ -4,6 +4,7 @@ SPECIFICATION Spec
 CONSTANTS
   Threads = {1, 2, 3}
   Rounds = 1
+  MoreRounds = {}
   PassiveSpin = 5
   Spurious = FALSE
   WakeOn = 2
